@@ -441,15 +441,16 @@ int main(int argc, char** argv) {
   uint64_t seed = strtoull(argv[4], nullptr, 10);
   bool thorough = strcmp(argv[5], "thorough") == 0;
   std::string fam = argv[6];
-  fam_break = fam.find("break") != std::string::npos;
-  fam_make = fam.find("make") != std::string::npos;
-  fam_rt = fam.find("rt") != std::string::npos;
-  fam_convert = fam.find("convert") != std::string::npos;
-  fam_limits = fam.find("limits") != std::string::npos;
-  fam_trans = fam.find("trans") != std::string::npos;
-  fam_history = fam.find("history") != std::string::npos;
-  fam_twin = fam.find("twin") != std::string::npos;
-  fam_small = fam.find("small") != std::string::npos;   // reduced panels (many zones, e.g. mutated files)
+  auto has = [&](const char* w) { std::string f = "," + fam + ","; return f.find(std::string(",") + w + ",") != std::string::npos; };
+  fam_break = has("break");
+  fam_make = has("make");
+  fam_rt = has("rt");
+  fam_convert = has("convert");
+  fam_limits = has("limits");
+  fam_trans = has("trans");
+  fam_history = has("history");
+  fam_twin = has("twin");
+  fam_small = has("small");   // reduced panels (many zones, e.g. mutated files)
   signal(SIGALRM, alarm_handler);
   // optional spec-generated panel: lines {"name":..., "t":[W...]} are not parsed here; a plain
   // text form "<name>\t<int64> <int64> ..." is used instead
@@ -542,7 +543,7 @@ int main(int argc, char** argv) {
     { std::lock_guard<std::mutex> l(g_mu); g_files.erase(key); }
   }
   // the library's built-in fixed-offset zones (no zone data): +-24 h, sub-minute, UTC
-  if (fam.find("fixed") != std::string::npos) {
+  if (has("fixed")) {
     for (long off : {86400L, -86400L, 86399L, -86399L, 0L, 19815L, -30L, 43200L, 90000L}) {
       int sh = 0;
       for (int i = 1; i < nsh; ++i) if (shard_events[i] < shard_events[sh]) sh = i;
